@@ -85,6 +85,9 @@ def _check_sequence(ctx, rule, inst, obj, fr, to, axname="AX", fi=None):
                     break
         if dim != dimsym(axname, to):
             problems.append(f"result dimension is {dim!r}, expected the `{to}` dimension {dimsym(axname, to)!r}")
+        casts = [m for m in markers if m[0] == "astype"]
+        if casts and N == NS[0]:
+            problems.append(f"the running sums are cast with astype({casts[0][1:]!r}): sums of integers or booleans do not fit the type of the summands, so the values change")
         # the boundary rule must act on the running sums that are kept: under 'wrap' the leading value is the last
         # kept running sum, under 'extend' the first one, under 'fill' the fill value
         if not problems:
@@ -213,6 +216,41 @@ def check(ctx):
             ctx.ok("R09.3", inst, "axes are summed in the given order, each on the previous result")
         else:
             ctx.report("R09.3", fi, inst, "with two axes the axes are not processed one after another in the order given, each on the result of the previous one")
+
+    # two axes with *different* per-axis rules and fill values in one call: the pad() of each axis must resolve to that
+    # axis' own entry (pad completes a mapping per axis; a scalar handed over stands for every axis)
+    for order in (("AX", "AY"), ("AY", "AX")):
+        inst = f"per-axis boundary / fill_value mappings, axis order {list(order)}"
+        bmap = {Sym("AX"): "fill", Sym("AY"): "extend"}
+        fmap = {Sym("AX"): 1.0, Sym("AY"): 2.0}
+        ev2 = Evaluator(P, models=_models(), attr_models={("DataArray", "chunks"): lambda ev, o, n: TOP})
+
+        def make(order=order):
+            g = make_grid(("AX", "AY"))
+            da = make_da("da", [Sym("t"), dimsym("AY", "center"), dimsym("AX", "center")])
+            return dict(self=g, da=da, axis=[Sym(order[0]), Sym(order[1])], to="left", boundary=dict(bmap), fill_value=dict(fmap), metric_weighted=None, keep_coords=Sym("USER_KEEP"))
+
+        try:
+            outs = ev2.run_paths(fi, make)
+        except Unmodelled as e:
+            ctx.unknown("R09.3", inst, str(e))
+            continue
+        bad = None
+        for o in outs:
+            pads = [e for e in (o.value.eff if isinstance(o.value, Obj) else []) if e[0] == "PAD"]
+            if o.kind != "return" or len(pads) != 2:
+                bad = f"{o.kind}: {len(pads)} pad() calls for two axes"
+                continue
+            for axn, p in zip(order, pads):
+                ax = Sym(axn)
+                for what, given, want in (("boundary", p[2], bmap[ax]), ("fill_value", p[3], fmap[ax])):
+                    eff = given.get(ax, "<axis default>") if isinstance(given, dict) else given
+                    if eff != want:
+                        bad = bad or f"axis {axn}: pad() is given {what}={given!r}, which resolves to {eff!r} for this axis; the caller asked for {want!r} (an earlier axis' entry must not stand in for a later axis)"
+        if bad:
+            ctx.report("R09.3", fi, inst, bad)
+        else:
+            ctx.ok("R09.3", inst, "each axis padded with its own rule and fill value")
 
     # ---------------- R09.2 sibling registry
     try:
